@@ -137,6 +137,7 @@ func vpParam(fr *frame, a []value) value {
 
 func vpAssume(fr *frame, a []value) value {
 	m := fr.m
+	m.flushDeferred() // assumptions are not retroactive
 	switch c := a[0].(type) {
 	case bool:
 		if !c {
@@ -190,7 +191,7 @@ func vpAssert(fr *frame, a []value) value {
 		}
 	case *Term:
 		nc := m.ts.Not(c)
-		r := m.sol.Check(m.ts, nc)
+		r := m.assertCheck(nc) // solver_oneshot.go: incremental check, one-shot retry on unknown
 		switch r {
 		case Unsat:
 			m.sol.PopCheck()
@@ -334,6 +335,10 @@ func vpConfig(fr *frame, a []value) value {
 	case "select":
 		m.selectNondet = val != 0
 	default:
+		if f := vpConfigExt[key]; f != nil { // keys registered by intr_*.go files
+			f(m, val)
+			return nil
+		}
 		panic(engineError{"vpConfig: unknown key " + key})
 	}
 	return nil
